@@ -43,6 +43,7 @@ namespace sim
             case 4: run_with< 4 >( in, out ); break;
             case 5: run_with< 5 >( in, out ); break;
             case 6: run_with< 6 >( in, out ); break;
+            case 8: run_with< 8 >( in, out ); break;
             default: run_with< 7 >( in, out ); break;
          }
       }
